@@ -62,6 +62,7 @@ class multiline_structure(structure.Rule):
             aToi = oFile.get_tokens_bounded_by(lTokenPair[0], lTokenPair[1], bExcludeLastToken=self.bExcludeLastToken, bIncludeTillEndOfLine=True)
             lToi = utils.combine_two_token_class_lists(lToi, aToi)
 
+        self.ignore_single_line = utils.convert_boolean_to_yes_no(self.ignore_single_line)
         lReturn = []
         for oToi in lToi:
             if rules_utils.is_single_line(oToi) and self.ignore_single_line == "yes":
